@@ -103,9 +103,11 @@ type SimNode struct {
 	knownAtCrash    map[uint32]int
 	lastKnown       map[uint32]int
 	peersAtLeave    []*peers.Peer
+	constructing    bool
 	ownScanned      int
 	ownPayload      map[string]int
 	sigChecked      map[string]bool
+	frameChecked    map[int]bool
 }
 
 func (n *SimNode) running() bool { return n.started && !n.crashed && !n.dead && !n.byz && n.node != nil }
@@ -151,6 +153,7 @@ type Cluster struct {
 	// models
 	chain     map[int]string // canonical chain: index -> digest
 	chainBody map[int]*hg.Block
+	chainBy   map[int]*SimNode
 	dag       *DagRecord
 	ledger    *Ledger
 
@@ -178,6 +181,7 @@ type Cluster struct {
 	byzHandler     func(s *Step)
 	emitted        map[string]string
 	emitScanned    int
+	frameHashes    map[int]frameRef
 }
 
 func clonePeers(ps []*peers.Peer) []*peers.Peer {
@@ -225,11 +229,13 @@ func newCluster(t *testing.T, cfg *RunConfig, seed uint64) *Cluster {
 		byPath:    map[string]*SimNode{},
 		chain:     map[int]string{},
 		chainBody: map[int]*hg.Block{},
+		chainBy:   map[int]*SimNode{},
 		dag:       newDagRecord(),
 		ledger:    newLedger(),
 		stats:     newStats(),
 		trace:     newTraceHasher(),
 		emitted:   map[string]string{},
+		frameHashes: map[int]frameRef{},
 		start:     time.Now(),
 		policy:    cfg.Policy,
 	}
@@ -360,6 +366,8 @@ func (c *Cluster) startNode(n *SimNode, bootstrap bool) error {
 	n.app.resetState(n.epoch)
 	n.trans = newSimTransport(c, n)
 
+	n.constructing = true
+	defer func() { n.constructing = false }()
 	n.node = node.NewNode(conf,
 		node.NewValidator(n.key, n.moniker),
 		peers.NewPeerSet(clonePeers(n.configuredPeers)),
@@ -377,6 +385,7 @@ func (c *Cluster) startNode(n *SimNode, bootstrap bool) error {
 	n.ownScanned = n.core().Seq()
 	n.ownPayload = map[string]int{}
 	n.sigChecked = map[string]bool{}
+	n.frameChecked = map[int]bool{}
 	return nil
 }
 
@@ -417,13 +426,18 @@ func (c *Cluster) onDeliver(n *SimNode, d *Delivery) {
 	if prev, ok := c.chain[idx]; ok {
 		if prev != d.Digest {
 			ref := c.chainBody[idx]
-			c.violate("C01", "agreement", "block-divergence",
+			prop := "C01"
+			if n.ffDone || (c.chainBy[idx] != nil && c.chainBy[idx].ffDone) {
+				prop = "C13"
+			}
+			c.violate(prop, "agreement", "block-divergence",
 				"node %d delivered block %d with digest %s, canonical %s (rr %d vs %d, %d vs %d txs, ts %d vs %d)",
 				n.idx, idx, d.Digest, prev, d.Block.RoundReceived(), ref.RoundReceived(),
 				len(d.Block.Transactions()), len(ref.Transactions()), d.Block.Timestamp(), ref.Timestamp())
 		}
 	} else {
 		c.chain[idx] = d.Digest
+		c.chainBy[idx] = n
 		full := d.Block
 		full.Body.StateHash = d.Resp.StateHash
 		full.Body.InternalTransactionReceipts = d.Resp.InternalTransactionReceipts
